@@ -34,11 +34,11 @@ theorem q_congr {s s' : TState} (h : s'.queues = s.queues) (q : Nat) : s'.q q = 
   simp [TState.q, h]
 
 @[simp] theorem pc_mk (qs lv a m pcs d lt c) (t : Nat) :
-    (TState.mk qs lv a m pcs d lt c).pc t = pcs.getD t .idle := rfl
+    (TState.mk qs lv a m pcs d lt c).pc t = pcs[t]?.getD .idle := rfl
 @[simp] theorem q_mk (qs lv a m pcs d lt c) (q : Nat) :
-    (TState.mk qs lv a m pcs d lt c).q q = qs.getD q {} := rfl
-@[simp] theorem pcs_getD (s : TState) (t : Nat) : s.pcs.getD t PC.idle = s.pc t := rfl
-@[simp] theorem queues_getD (s : TState) (q : Nat) : s.queues.getD q ({} : TQ) = s.q q := rfl
+    (TState.mk qs lv a m pcs d lt c).q q = qs[q]?.getD {} := rfl
+@[simp] theorem pcs_getD (s : TState) (t : Nat) : s.pcs[t]?.getD PC.idle = s.pc t := rfl
+@[simp] theorem queues_getD (s : TState) (q : Nat) : s.queues[q]?.getD ({} : TQ) = s.q q := rfl
 
 @[simp] theorem setQ_pc (s : TState) (q f) (t : Nat) : (s.setQ q f).pc t = s.pc t := rfl
 @[simp] theorem setPc_q (s : TState) (t p) (q : Nat) : (s.setPc t p).q q = s.q q := rfl
@@ -87,8 +87,8 @@ theorem q_of_not_lt (s : TState) {q : Nat} (h : ¬ q < s.queues.length) : s.q q 
 
 /-- the queue table after `execute_new_loop` created a queue -/
 theorem q_append (qs : List TQ) (q : Nat) :
-    (qs ++ [({} : TQ)]).getD q {} = qs.getD q {} := by
-  simp only [List.getD_eq_getElem?_getD, List.getElem?_append]
+    (qs ++ [({} : TQ)])[q]?.getD {} = qs[q]?.getD {} := by
+  simp only [List.getElem?_append]
   split
   · rfl
   · rename_i h
@@ -110,9 +110,10 @@ inductive TStep (s : TState) (t : Nat) : Ev → TState → Prop
   | contains (sg q todo res) (hpc : s.pc t = .asking sg q todo)
       (hres : res = match sg.src with | some n => (s.q q).sources.contains n | none => false) :
       TStep s t (.contains q sg.src res) (s.setPc t (.asked sg q todo res))
-  | askRel (sg q todo res) (hpc : s.pc t = .asked sg q todo res) :
-      TStep s t (.relQ q)
-        ((s.setQ q fun x => { x with srcLock := none }).setPc t (if res then .putAcq sg q true else .iter sg todo))
+  | askRelYes (sg q todo) (hpc : s.pc t = .asked sg q todo true) :
+      TStep s t (.relQ q) ((s.setQ q fun x => { x with srcLock := none }).setPc t (.putAcq sg q true))
+  | askRelNo (sg q todo) (hpc : s.pc t = .asked sg q todo false) :
+      TStep s t (.relQ q) ((s.setQ q fun x => { x with srcLock := none }).setPc t (.iter sg todo))
   | relMainNotFound (sg) (hpc : s.pc t = .iter sg []) (hl : s.mainLock = some t) :
       TStep s t .relMain ({ s with mainLock := none }.setPc t (.fallback sg))
   | acqO (sg q found) (hpc : s.pc t = .putAcq sg q found) (hl : (s.q q).ordLock = none) :
@@ -190,7 +191,71 @@ theorem tstep_sound {s : TState} {t : Nat} {e : Ev} {s' : TState} (h : tstep s t
   all_goals (repeat (rename_i hh; obtain ⟨_, _⟩ := hh))
   all_goals subst_vars
   all_goals (try (constructor <;> assumption))
-  all_goals trace_state
-  all_goals sorry
+  all_goals first
+    | exact TStep.contains _ _ _ _ ‹_› (by simp [*])
+    | exact TStep.askRelYes _ _ _ ‹_›
+    | exact TStep.askRelNo _ _ _ ‹_›
+    | exact TStep.clAcq ‹_› rfl ‹_›
+    | exact TStep.clRel ‹_› ‹_›
+    | exact TStep.idleRead ‹_› rfl
+    | exact TStep.putBack _ _ _ _ ‹_› rfl ‹_› ‹_›
+    | (obtain ⟨rfl, rfl⟩ := ‹_ ∧ _›; refine TStep.get _ ?_ rfl ?_ <;> assumption)
+
+/-! ### schedules -/
+
+theorem run_append (s : TState) (a b : List (Nat × Ev)) :
+    run s (a ++ b) = (run s a).bind fun s' => run s' b := by
+  induction a generalizing s with
+  | nil => simp [run]
+  | cons x a ih =>
+    obtain ⟨t, e⟩ := x
+    simp only [List.cons_append, run]
+    cases tstep s t e with
+    | none => simp
+    | some s1 => simpa using ih s1
+
+theorem run_snoc {s : TState} {a : List (Nat × Ev)} {t : Nat} {e : Ev} {s' : TState} :
+    run s (a ++ [(t, e)]) = some s' ↔ ∃ s1, run s a = some s1 ∧ tstep s1 t e = some s' := by
+  rw [run_append]
+  cases run s a with
+  | none => simp
+  | some s1 =>
+    simp only [Option.bind_some, run, Option.some.injEq, exists_eq_left']
+    cases tstep s1 t e <;> simp
+
+theorem run_append_some {s : TState} {a b : List (Nat × Ev)} {s' : TState} :
+    run s (a ++ b) = some s' ↔ ∃ s1, run s a = some s1 ∧ run s1 b = some s' := by
+  rw [run_append]
+  cases run s a <;> simp
+
+/-- induction over accepted schedules, from the left end (the history grows at the right) -/
+theorem run_induction {init : TState} {P : List (Nat × Ev) → TState → Prop} (h0 : P [] init)
+    (hstep : ∀ pre s t e s', run init pre = some s → P pre s → TStep s t e s' → P (pre ++ [(t, e)]) s') :
+    ∀ sched s, run init sched = some s → P sched s := by
+  have aux : ∀ sched pre s0 s, run init pre = some s0 → P pre s0 → run s0 sched = some s → P (pre ++ sched) s := by
+    intro sched
+    induction sched with
+    | nil => intro pre s0 s _ hp hr; simp only [run, Option.some.injEq] at hr; subst hr; simpa using hp
+    | cons x rest ih =>
+      intro pre s0 s hpre hp hr
+      obtain ⟨t, e⟩ := x
+      simp only [run] at hr
+      cases hs : tstep s0 t e with
+      | none => simp [hs] at hr
+      | some s1 =>
+        simp only [hs] at hr
+        have h1 : run init (pre ++ [(t, e)]) = some s1 := run_snoc.2 ⟨s0, hpre, hs⟩
+        have := ih (pre ++ [(t, e)]) s1 s h1 (hstep pre s0 t e s1 hpre hp (tstep_sound hs)) hr
+        simpa using this
+  intro sched s hr
+  simpa using aux sched [] init s rfl h0 hr
+
+/-- induction over reachable states -/
+theorem treach_induction {src0 : List Nat} {P : TState → Prop} (h0 : P (initState src0))
+    (hstep : ∀ s t e s', TReach src0 s → P s → TStep s t e s' → P s') :
+    ∀ s, TReach src0 s → P s := by
+  intro s ⟨sched, hr⟩
+  exact run_induction (P := fun _ s => P s) h0
+    (fun pre s t e s' hpre hp hs => hstep s t e s' ⟨pre, hpre⟩ hp hs) sched s hr
 
 end Simpleline.Threads
